@@ -128,7 +128,7 @@ def run_one(m, tier, with_tests):
             if not ok:
                 rec.update(status="tests-fail", detail=tail)
                 return rec
-        env = dict(os.environ, PYTRAPIC_REPO=d, PYTRAPIC_REPO_SRC=os.path.join(d, "src"), VERIF_CONFORMANCE="0",
+        env = dict(os.environ, PYTRAPIC_REPO=d, PYTRAPIC_REPO_SRC=os.path.join(d, "src"), VERIF_CONFORMANCE="0", VERIF_EARLY_STOP="1",
                    VERIF_EVIDENCE_DIR=os.path.join(d, "evidence"), VERIF_REPLAY_DIR=os.path.join(d, "replays"))
         r = subprocess.run([os.path.join(VERIF, "check"), m["property"], "--tier", tier], env=env, capture_output=True, text=True)
         out = r.stdout
